@@ -255,6 +255,7 @@ def settings(seed, tier):
     simple('CoherenceAnalyzer', 'complex-welch32', lambda x: na.CoherenceAnalyzer(x, method=dict(this_method='welch', NFFT=32, n_overlap=16)), cplx=True)
     simple('CoherenceAnalyzer', 'complex-default', lambda x: na.CoherenceAnalyzer(x), n=160, cplx=True)
     simple('SparseCoherenceAnalyzer', 'complex-ij', lambda x: na.SparseCoherenceAnalyzer(x, ij=[(0, 1), (1, 2)], method=dict(this_method='welch', NFFT=32, n_overlap=16)), cplx=True)
+    simple('MTCoherenceAnalyzer', 'complex-adaptive', lambda x: na.MTCoherenceAnalyzer(x), n=64, cplx=True)
     simple('CorrelationAnalyzer', 'complex', lambda x: na.CorrelationAnalyzer(x), n=32, cplx=True)
     simple('NormalizationAnalyzer', 'complex', lambda x: na.NormalizationAnalyzer(x), n=32, cplx=True)
     simple('MTCoherenceAnalyzer', 'adaptive', lambda x: na.MTCoherenceAnalyzer(x), n=64)
